@@ -417,6 +417,17 @@ func (g *schemaGenerator) structFieldValidators(
 		arrayDepth := 0
 		for v, ok := t.(*codegen.ArrayType); ok; v, ok = t.(*codegen.ArrayType) {
 			arrayDepth++
+
+			if f.SchemaType.MinItems != 0 || f.SchemaType.MaxItems != 0 {
+				validators = append(validators, &arrayValidator{
+					fieldName:  f.Name,
+					jsonName:   f.JSONName,
+					arrayDepth: arrayDepth,
+					minItems:   f.SchemaType.MinItems,
+					maxItems:   f.SchemaType.MaxItems,
+				})
+			}
+
 			if _, ok := v.Type.(codegen.NullType); ok {
 				validators = append(validators, &nullTypeValidator{
 					fieldName:  f.Name,
@@ -425,14 +436,6 @@ func (g *schemaGenerator) structFieldValidators(
 				})
 
 				break
-			} else if f.SchemaType.MinItems != 0 || f.SchemaType.MaxItems != 0 {
-				validators = append(validators, &arrayValidator{
-					fieldName:  f.Name,
-					jsonName:   f.JSONName,
-					arrayDepth: arrayDepth,
-					minItems:   f.SchemaType.MinItems,
-					maxItems:   f.SchemaType.MaxItems,
-				})
 			}
 
 			t = v.Type
